@@ -327,6 +327,56 @@ func typenameKey(t *rapid.T) string {
 	return "__typename"
 }
 
+// addTwin selects one root field a second time under another response key, with the same
+// response keys below it but thinned-out sub-selections: the same objects are then reached
+// at two places of the query under the same response key with different sub-selections.
+func addTwin(t *rapid.T, root []*Node) []*Node {
+	var cands []int
+	for i, n := range root {
+		if n.Kind == "field" && n.HasSub && len(n.Sub) > 0 {
+			cands = append(cands, i)
+		}
+	}
+	if len(cands) == 0 {
+		return root
+	}
+	orig := root[cands[rapid.IntRange(0, len(cands)-1).Draw(t, "twinof")]]
+	var clone func(n *Node) *Node
+	clone = func(n *Node) *Node {
+		c := *n
+		c.Sub = nil
+		for _, s := range n.Sub {
+			c.Sub = append(c.Sub, clone(s))
+		}
+		return &c
+	}
+	var thin func(n *Node, depth int)
+	thin = func(n *Node, depth int) {
+		if depth >= 1 && len(n.Sub) > 1 {
+			var fields []int
+			for i, s := range n.Sub {
+				if s.Kind == "field" && s.Name != "__typename" {
+					fields = append(fields, i)
+				}
+			}
+			if len(fields) > 0 && rapid.Bool().Draw(t, "thin") {
+				k := fields[rapid.IntRange(0, len(fields)-1).Draw(t, "thinwhich")]
+				n.Sub = append(n.Sub[:k:k], n.Sub[k+1:]...)
+			}
+		}
+		for _, s := range n.Sub {
+			if s.Kind == "field" && s.HasSub {
+				thin(s, depth+1)
+			}
+		}
+	}
+	tw := clone(orig)
+	keyCounter++
+	tw.Key = fmt.Sprintf("k%d_twin_%s", keyCounter, orig.Name)
+	thin(tw, 0)
+	return append(root, tw)
+}
+
 func refString(r TypeRef) string {
 	switch r.Kind {
 	case "NON_NULL":
@@ -774,6 +824,9 @@ func TestAdvertised(t *testing.T) {
 		for qi := 0; qi < 4; qi++ {
 			keyCounter = 0
 			root := model.genSel(t, model.Query, rapid.IntRange(1, 4).Draw(t, "depth"), false)
+			if rapid.IntRange(0, 2).Draw(t, "twin") == 0 {
+				root = addTwin(t, root)
+			}
 			q := text(root)
 			c := Case{Spec: s, Modes: modes, Query: q, Sel: root}
 			fail := func(sig string, err error) {
